@@ -67,23 +67,22 @@ class ModeAggregator(Aggregator):
 
         # Categorical probabilities (n_predictors, n_samples, ..., n_classes)
         y_proba_models = self._np.stack(y, axis=0)
-        n_predictors = y_proba_models.shape[0]
         num_classes = y_proba_models.shape[-1]
 
-        # Mode of the ensemble (n_samples, ...)
+        # Mode of the predictors (n_predictors, n_samples, ...)
         y_mode_models = self._np.argmax(y_proba_models, axis=-1)
 
-        weighted_counts = self._np.zeros_like(y_proba_models, dtype=np.float64).sum(axis=0)
-        eye_arr = np.eye(num_classes, dtype=np.float64)
-        for i in range(n_predictors):
-            if weights is None:
-                weighted_counts += eye_arr[y_mode_models[i]] / n_predictors
-            else:
-                weighted_counts += eye_arr[y_mode_models[i]] * weights[i] / np.sum(weights)
+        # One-hot votes of the predictors (n_predictors, n_samples, ..., n_classes). A masked
+        # prediction is a masked vote: the weighted average ignores it and renormalises the
+        # remaining weights, as the other aggregators do.
+        votes = np.eye(num_classes, dtype=np.float64)[y_mode_models]
+        if is_masked:
+            votes = np.ma.array(votes, mask=np.ma.getmaskarray(y_proba_models))
+        weighted_counts = self._np.average(votes, weights=weights, axis=0)
 
         y_mode_ensemble = weighted_counts.argmax(axis=-1)
         if is_masked:
-            mask = weighted_counts.sum(axis=-1).mask
+            mask = np.ma.getmaskarray(weighted_counts).all(axis=-1)
             y_mode_ensemble = self._np.array(y_mode_ensemble, mask=mask)
 
         if not self.with_uncertainty:
